@@ -2,6 +2,6 @@ SPECIFICATION GSpec
 CONSTANTS
   GKeys = {1, 2}
   MaxOps = 3
-  NTrees = 9
+  NTrees = 11
 INVARIANT Emit
 CHECK_DEADLOCK FALSE
